@@ -172,7 +172,9 @@ class PathProv:
 
     def _classify_container_source(self, t, depth):
         c = t.callee
-        if c == "std::iter::IntoIterator::into_iter" or c == "std::iter::Iterator::peekable":
+        if c in ("std::iter::IntoIterator::into_iter", "std::iter::Iterator::peekable", "std::iter::Iterator::enumerate", "std::iter::Iterator::fuse",
+                 "std::iter::Iterator::skip", "std::iter::Iterator::take", "std::iter::Iterator::by_ref", "std::iter::Iterator::cloned",
+                 "std::iter::Iterator::copied", "std::iter::Iterator::inspect"):
             # iterator over another container / iterator: follow the receiver
             res = set()
             for o in self.tracer.origins_of_arg(t, 0):
